@@ -92,6 +92,33 @@ for (ki, ko, tiers, cost) in ((1, 1, ("quick", "thorough"), 2), (2, 2, ("quick",
     OBLIGATIONS.append(M("C10", f"c10_legacy_k{ki}x{ko}", {"q": "legacy", "k_in": ki, "k_out": ko}, LEGACY_FUNCS,
                          f"{ki} inputs x {ko} outputs, every input index 0..{ki}, six legacy flags (0x01,0x02,0x03,0x81,0x82,0x83); all scalars and script lengths symbolic", cost=cost, tiers=tiers))
 
+# ---------------------------------------------------------------- C02
+EXPLANATION["C02"] = ("Push-encoding clause only. E1: minimal push prefix for every length 1..2^32-1 (and refusal above), push opcode classes for all u64, "
+                      "encode_pushdata = prefix ++ payload at boundary lengths. Tokenizer / truncated pushes / IF nesting are outside (ScriptBit unreachable for CBMC).")
+OBLIGATIONS += [
+    K("C02", "c02_push_prefix", "c02", ["Script::get_pushdata_bytes", "Script::get_pushdata_prefix_bytes"], "all u64 lengths >= 1 (usize = u64); unwind 8", cost=3, stubs=(FMT, IOERR), full_domain=True),
+    K("C02", "c02_push_opcode_class", "c02", ["VarInt::get_pushdata_opcode"], "all u64", cost=1, full_domain=True),
+    K("C02", "c02_encode_pushdata_1", "c02", ["Script::encode_pushdata"], "all 1-byte payloads", cost=1, stubs=(FMT, IOERR)),
+    K("C02", "c02_encode_pushdata_75", "c02", ["Script::encode_pushdata"], "all 75-byte payloads; unwind 78", cost=2, stubs=(FMT, IOERR)),
+    K("C02", "c02_encode_pushdata_76", "c02", ["Script::encode_pushdata"], "all 76-byte payloads; unwind 79", cost=2, stubs=(FMT, IOERR)),
+    K("C02", "c02_encode_pushdata_255", "c02", ["Script::encode_pushdata"], "all 255-byte payloads; unwind 258", cost=3, stubs=(FMT, IOERR), tiers=("thorough",)),
+    K("C02", "c02_encode_pushdata_256", "c02", ["Script::encode_pushdata"], "all 256-byte payloads; unwind 259", cost=3, stubs=(FMT, IOERR), tiers=("thorough",)),
+]
+
+# ---------------------------------------------------------------- C06
+EXPLANATION["C06"] = ("Signature encodings. E1 on the compiled crate with the real k256 scalar parsing: compact 65-byte form for all inputs (thorough) and all wrong lengths (quick).")
+OBLIGATIONS += [
+    K("C06", "c06_compact_len_0", "c06", ["Signature::from_compact_bytes"], "empty buffer", cost=1),
+    K("C06", "c06_compact_len_1", "c06", ["Signature::from_compact_bytes"], "all 1-byte buffers", cost=1),
+    K("C06", "c06_compact_len_33", "c06", ["Signature::from_compact_bytes"], "all 33-byte buffers", cost=1),
+    K("C06", "c06_compact_len_64", "c06", ["Signature::from_compact_bytes"], "all 64-byte buffers", cost=1),
+    K("C06", "c06_compact_len_66", "c06", ["Signature::from_compact_bytes"], "all 66-byte buffers", cost=1),
+    K("C06", "c06_compact_parse_any", "c06", ["Signature::from_compact_bytes", "Signature::to_compact_bytes", "Signature::r", "Signature::s", "k256 Signature::from_scalars (real code)"],
+      "all 65-byte strings; unwind 67", cost=30, tiers=("thorough",), timeout=3000, full_domain=True),
+    K("C06", "c06_compact_recovery_matrix", "c06", ["Signature::from_compact_bytes", "Signature::to_compact_bytes(Some(RecoveryInfo))", "RecoveryInfo::new/from_byte"],
+      "all 65-byte strings with header 27..=34 x all 8 RecoveryInfo values; unwind 67", cost=40, tiers=("thorough",), timeout=3600, full_domain=True),
+]
+
 
 def for_property(pid):
     return [dict(o) for o in OBLIGATIONS if o["property"] == pid]
